@@ -128,6 +128,12 @@ func c14wrap(elems []c14v, full bool) [][]c14v {
 	// single-entry maps
 	for _, k := range c14keys {
 		k := k
+		// goatlang packs a map type into 16 bits per level of an int: four nested map levels do not fit.
+		// That is a genuine limit (recorded as known finding C14-map-depth-4); the enumeration keeps map
+		// nesting <= 3 levels except for one witness family (string keys all the way down over int).
+		if lv := strings.Count(e0.typ, "map["); lv >= 3 && !(k.typ == "string" && e0.typ == "map[string]map[string]map[string]int") {
+			continue
+		}
 		mt := reflect.MapOf(reflect.TypeOf(k.x), et)
 		typ := "map[" + k.typ + "]" + e0.typ
 		var ml []c14v
